@@ -142,4 +142,58 @@ theorem stdEvent_out (sc : SCfg) (c : StdCfg) (find : Oracle) (st : StdState) (e
       rw [sinkSlow_eq sc c _ (by simpa using he) ho]
       simp
 
+/-! ### a whole event stream -/
+
+/-- The events the sink consumes, each with the sink state in front of it: the searcher stops delivering after
+the first callback that answers `false`. -/
+def processed (sc : SCfg) (c : StdCfg) (find : Oracle) : StdState → List Event → List (StdState × Event)
+  | _, [] => []
+  | st, ev :: rest =>
+    if (stdEvent sc c find st ev).2 then (st, ev) :: processed sc c find (stdEvent sc c find st ev).1 rest
+    else [(st, ev)]
+
+theorem stdEvents_cons (sc : SCfg) (c : StdCfg) (find : Oracle) (st : StdState) (ev : Event) (rest : List Event) :
+    stdEvents sc c find st (ev :: rest) =
+      if (stdEvent sc c find st ev).2 then stdEvents sc c find (stdEvent sc c find st ev).1 rest
+      else (stdEvent sc c find st ev).1 := by
+  rw [stdEvents]
+
+theorem processed_sub (sc : SCfg) (c : StdCfg) (find : Oracle) :
+    ∀ (evs : List Event) (st : StdState) (p : StdState × Event), p ∈ processed sc c find st evs → p.2 ∈ evs := by
+  intro evs
+  induction evs with
+  | nil => intro st p hp; simp [processed] at hp
+  | cons ev rest ih =>
+    intro st p hp
+    unfold processed at hp
+    by_cases hc : (stdEvent sc c find st ev).2 = true
+    · simp only [hc, ↓reduceIte, List.mem_cons] at hp
+      rcases hp with hp | hp
+      · subst hp; simp
+      · exact List.mem_cons_of_mem _ (ih _ p hp)
+    · simp only [hc, Bool.false_eq_true, ↓reduceIte, List.mem_singleton] at hp
+      subst hp; simp
+
+/-- **A whole stream**: the output of the Standard sink is the concatenation, over the events it consumed, of
+each event's records in the record layout (plus search prelude / context separators). -/
+theorem stdEvents_out (sc : SCfg) (c : StdCfg) (find : Oracle) (ho : c.onlyMatching = false) :
+    ∀ (evs : List Event) (st : StdState), (∀ ev ∈ evs, fastPath sc c find ev = true) →
+      (stdEvents sc c find st evs).out =
+        st.out ++ (processed sc c find st evs).flatMap
+          (fun p => eventOutput sc c find p.1.count p.1.total p.2) := by
+  intro evs
+  induction evs with
+  | nil => intro st _; simp [stdEvents, processed]
+  | cons ev rest ih =>
+    intro st hall
+    rw [stdEvents_cons]
+    unfold processed
+    have hev := stdEvent_out sc c find st ev ho (hall ev (by simp))
+    by_cases hc : (stdEvent sc c find st ev).2 = true
+    · simp only [hc, ↓reduceIte, List.flatMap_cons]
+      rw [ih _ (fun e he => hall e (List.mem_cons_of_mem _ he)), hev]
+      simp
+    · simp only [hc, Bool.false_eq_true, ↓reduceIte, List.flatMap_cons, List.flatMap_nil, List.append_nil]
+      exact hev
+
 end RgVerif.Lemmas.PrinterStd
